@@ -129,6 +129,35 @@ pub fn mpmc_jobs(thorough: bool, finish: bool) -> Vec<Job> {
     v
 }
 
+pub fn ring_jobs(thorough: bool) -> Vec<Job> {
+    let mut v = vec![];
+    let len = if thorough { 16 } else { 12 };
+    for cap in 0..=4i64 {
+        let name: &'static str = ["ring.arr0", "ring.arr1", "ring.arr2", "ring.arr3", "ring.arr4"][cap as usize];
+        v.push(job(Cfg::new(name, &[("cap", cap), ("len", len)]), true, thorough));
+        v.push(job(Cfg::new("ring.fix", &[("cap", cap), ("len", len)]), true, thorough));
+        v.push(job(Cfg::new("ring.grow", &[("cap", cap), ("len", len)]), true, thorough));
+    }
+    v
+}
+
+pub fn ds_jobs(thorough: bool) -> Vec<Job> {
+    let mut v = vec![];
+    v.push(job(Cfg::new("ds.list", &[("n", if thorough { 7 } else { 5 })]), false, thorough));
+    v.push(job(Cfg::new("ds.heap", &[("n", if thorough { 6 } else { 5 }), ("key_values", 3)]), false, thorough));
+    if !thorough {
+        v.push(job(Cfg::new("ds.heap", &[("n", 6), ("fixed_keys", 543210)]), false, false));
+        v.push(job(Cfg::new("ds.heap", &[("n", 6), ("fixed_keys", 0)]), false, false));
+    } else {
+        // 7 nodes: distinct keys, all equal, pairs, descending
+        for fk in [6543210i64, 0, 3221100, 123456] {
+            v.push(job(Cfg::new("ds.heap", &[("n", 7), ("fixed_keys", fk)]), false, true));
+        }
+        v.push(job(Cfg::new("ds.heap", &[("n", 4), ("key_values", 4)]), false, true));
+    }
+    v
+}
+
 pub fn all_jobs(thorough: bool) -> Vec<Job> {
     let mut v = vec![];
     v.extend(mutex_jobs(thorough, false));
@@ -145,6 +174,8 @@ pub fn plan(prop: &str, tier: &str) -> Vec<Job> {
     let t = tier == "thorough";
     match prop {
         "C01" | "C17" | "C18" => all_jobs(t),
+        "C19" => ring_jobs(t),
+        "C20" => ds_jobs(t),
         "C11" => {
             let mut v = mpmc_jobs(t, false);
             v.extend(oneshot_jobs(t));
